@@ -1,6 +1,8 @@
 package zv
 
 import (
+	"fmt"
+	"os"
 	"go/token"
 	"go/types"
 	"sort"
@@ -209,19 +211,108 @@ func c12Rules(c *Ctx, r1, r2, r3, r4, r5 string) {
 		if flush == nil || len(bw) != 1 {
 			c.Bad(r2, name, "flush-before-write", write.Pos(), "no Flush call before the buffered write")
 		} else {
-			var atoms []string
-			Bound(func() {
-				for _, a := range AtomStrings(Guards(flush)) {
-					if strings.Contains(a, "initialized") {
+			// Path exploration (helpers inline): on which paths is the buffer flushed before the write?
+			recv := write.Params[0].Name()
+			wD := recv + ".writer"
+			norm := func(d string) string {
+				d = strings.ReplaceAll(d, "(Size("+wD+") - Buffered("+wD+"))", "Available("+wD+")")
+				return d
+			}
+			// classify a branch condition: "fit" (the payload does not fit: len(p) > Available), "pending" (Buffered > 0)
+			classCond := func(cond ssa.Value, st *ConcState) (string, bool) {
+				pol := true
+				for k := 0; k < 8; k++ {
+					if u, ok := cond.(*ssa.UnOp); ok && u.Op == token.NOT {
+						cond, pol = u.X, !pol
 						continue
 					}
-					atoms = append(atoms, a)
+					if nx := st.Step(cond); nx != nil {
+						cond = nx
+						continue
+					}
+					break
 				}
+				bo, ok := cond.(*ssa.BinOp)
+				if !ok {
+					return "", false
+				}
+				x, y, op := norm(st.Desc(bo.X)), norm(st.Desc(bo.Y)), bo.Op
+				lenP, avail, buf := "len("+p.Name()+")", "Available("+wD+")", "Buffered("+wD+")"
+				if x == avail && y == lenP || x == "0" && y == buf {
+					x, y, op = y, x, swapOp(op)
+				}
+				switch {
+				case x == lenP && y == avail && op == token.GTR:
+					return "nofit", pol
+				case x == lenP && y == avail && op == token.LEQ:
+					return "nofit", !pol
+				case x == buf && y == "0" && (op == token.GTR || op == token.NEQ):
+					return "pending", pol
+				case x == buf && y == "0" && (op == token.LEQ || op == token.EQL):
+					return "pending", !pol
+				}
+				return "", false
+			}
+			seqs, trunc := ConcPaths(write, ConcCfg{
+				Event: func(in ssa.Instruction, st *ConcState) string {
+					if cl, ok := in.(*ssa.Call); ok {
+						if IsCallTo(cl, "(*bufio.Writer).Flush") {
+							return "flush"
+						}
+						if IsCallTo(cl, "(*bufio.Writer).Write") {
+							return "write"
+						}
+					}
+					return ""
+				},
+				Branch: func(cond ssa.Value, taken bool, st *ConcState) string {
+					k, v := classCond(cond, st)
+					if k == "" {
+						if os.Getenv("ZV_DEBUG") != "" {
+							return "?" + st.Desc(cond) + fmt.Sprint(st.fmem)
+						}
+						return ""
+					}
+					if v == taken {
+						return k + "=T"
+					}
+					return k + "=F"
+				},
 			})
-			sort.Strings(atoms)
-			recv := write.Params[0].Name()
-			want := []string{"Buffered(" + recv + ".writer) > 0", "len(" + p.Name() + ") > Available(" + recv + ".writer)"}
-			c.Check(strings.Join(atoms, "|") == strings.Join(want, "|"), r2, name, "flush-condition", flush.Pos(), "the buffer is flushed first exactly when the write does not fit and something is buffered (guards %v, want %v); any further conjunct lets bufio split an oversized write across two sink writes", atoms, want)
+			var bad []string
+			nFlush := 0
+			for _, sq := range seqs {
+				ev := strings.Split(sq, " ; ")
+				fl, wr := -1, -1
+				facts := map[string]bool{}
+				for i, e := range ev {
+					switch e {
+					case "flush":
+						if fl < 0 {
+							fl = i
+						}
+					case "write":
+						wr = i
+					default:
+						if wr < 0 && fl < 0 {
+							facts[e] = true
+						}
+					}
+				}
+				if fl >= 0 {
+					nFlush++
+					if !(facts["nofit=T"] && facts["pending=T"]) {
+						bad = append(bad, "flushes without having established both conditions: "+sq)
+					}
+				} else if wr >= 0 && !(facts["nofit=F"] || facts["pending=F"]) {
+					bad = append(bad, "writes without a flush although neither condition was found false: "+sq)
+				}
+			}
+			if trunc || len(seqs) == 0 {
+				c.Und(r2, name, "flush-condition", flush.Pos(), "path exploration of Write incomplete (%d, truncated=%v)", len(seqs), trunc)
+			} else {
+				c.Check(len(bad) == 0 && nFlush > 0, r2, name, "flush-condition", flush.Pos(), "over all %d paths of Write (helpers inline) the buffer is flushed first exactly when the payload does not fit (len(p) > Available) and something is pending (Buffered > 0); any further conjunct would let bufio split an oversized write across two sink writes: %v", len(seqs), bad)
+			}
 			c.Check(!ExistsPath(write, bw[0], func(i ssa.Instruction) bool { return i == ssa.Instruction(flush) }, nil), r2, name, "flush-precedes", flush.Pos(), "the flush never follows the write")
 			okErr := false
 			for _, r := range Returns(write) {
@@ -243,38 +334,65 @@ func c12Rules(c *Ctx, r1, r2, r3, r4, r5 string) {
 			cl, ok := i.(ssa.CallInstruction)
 			return ok && IsCallTo(cl, "(*bufio.Writer).Flush")
 		}
-		c.Check(mustPass(sync, isWS), r3, sync.String(), "always-syncs-sink", sync.Pos(), "every path of Sync reaches s.WS.Sync()")
-		// when initialised: flush happens, and before the sink sync
-		_, t, _ := BranchOn(sync, sync.Params[0].Name()+".initialized")
-		okF := t != nil && !ExistsPath(sync, AtBlock(t), isWS, isFlush)
-		// never a flush after the sink sync
-		for _, cl := range CallsDeep(sync) {
-			if isWS(cl) && ExistsPath(sync, cl, isFlush, nil) {
-				okF = false
-			}
-		}
-		c.Check(okF, r3, sync.String(), "flush-before-sync", sync.Pos(), "when initialised the buffer is flushed before the sink is synced")
-		// both errors reported: every return yields the sink's Sync error, combined with the flush error where a flush happened
-		okE := true
-		for _, r := range Returns(sync) {
-			v := Strip(RetVals(r)[0])
-			call, isCall := v.(*ssa.Call)
+		recvN := sync.Params[0].Name()
+		classify := func(cl *ssa.Call) string {
 			switch {
-			case isCall && IsCallTo(call, "go.uber.org/multierr.Append"):
-				a1, ok1 := Strip(call.Call.Args[1]).(*ssa.Call)
-				if !ok1 || !isWS(a1) {
-					okE = false
+			case isFlush(cl):
+				return "flush"
+			case isWS(cl):
+				return "sync"
+			}
+			return ""
+		}
+		for _, init := range []int64{1, 0} {
+			iv := init
+			slot := "initialized"
+			if iv == 0 {
+				slot = "not-initialized"
+			}
+			seqs, trunc := ConcPaths(sync, ConcCfg{
+				Conc: func(d string) (int64, bool) {
+					if d == recvN+".initialized" {
+						return iv, true
+					}
+					return 0, false
+				},
+				Event: func(in ssa.Instruction, st *ConcState) string {
+					switch x := in.(type) {
+					case *ssa.Call:
+						return classify(x)
+					case *ssa.Return:
+						src := errSources(st, x.Results[0], classify, 0)
+						var l []string
+						for k := range src {
+							l = append(l, k)
+						}
+						sort.Strings(l)
+						return "ret[" + strings.Join(l, "+") + "]"
+					}
+					return ""
+				},
+			})
+			if trunc || len(seqs) == 0 {
+				c.Und(r3, sync.String(), slot, sync.Pos(), "path exploration of Sync incomplete (%d sequences, truncated=%v)", len(seqs), trunc)
+				continue
+			}
+			want := "flush ; sync ; ret[flush+sync]"
+			if iv == 0 {
+				want = "sync ; ret[sync]"
+			}
+			var bad []string
+			for _, sq := range seqs {
+				if sq != want {
+					bad = append(bad, sq)
 				}
-			case isCall && isWS(call):
-				// plain relay: only where no flush can have happened
-				if ExistsPath(sync, nil, func(i ssa.Instruction) bool { return i == ssa.Instruction(r) }, nil) && !ExistsPath(sync, nil, func(i ssa.Instruction) bool { return i == ssa.Instruction(r) }, isFlush) {
-					okE = false
-				}
-			default:
-				okE = false
+			}
+			if iv == 1 {
+				c.Check(len(bad) == 0, r3, sync.String(), "flush-before-sync", sync.Pos(), "with initialized fixed to true every path of Sync (helpers explored inline) flushes the buffer, then syncs the sink, and returns an error built from both results (offending paths: %v)", bad)
+			} else {
+				c.Check(len(bad) == 0, r3, sync.String(), "always-syncs-sink", sync.Pos(), "with initialized fixed to false every path of Sync syncs the sink (no flush of the not yet created buffer) and returns that result (offending paths: %v)", bad)
 			}
 		}
-		c.Check(okE, r3, sync.String(), "errors-combined", sync.Pos(), "flush and sync errors are both reported")
 	}
 	if r4 != "" {
 		name := stop.String()
@@ -462,4 +580,44 @@ func mayCarry(e ssa.Value, src *ssa.Call, depth int) bool {
 		return mayCarry(x.Tuple, src, depth+1)
 	}
 	return false
+}
+
+
+// errSources follows an error value along the current path (φ choices, helper results, multierr.Append/Combine
+// arguments) back to the calls that produced it, classified by classify.
+func errSources(st *ConcState, v ssa.Value, classify func(*ssa.Call) string, depth int) map[string]bool {
+	out := map[string]bool{}
+	if depth > 12 || v == nil {
+		return out
+	}
+	v = Strip(v)
+	if cl, ok := v.(*ssa.Call); ok {
+		if k := classify(cl); k != "" {
+			out[k] = true
+			return out
+		}
+		if f := CalleeFunc(cl); f != nil {
+			switch f.FullName() {
+			case "go.uber.org/multierr.Append", "go.uber.org/multierr.Combine", "errors.Join":
+				for _, a := range cl.Call.Args {
+					for k := range errSources(st, a, classify, depth+1) {
+						out[k] = true
+					}
+				}
+				return out
+			}
+		}
+	}
+	if ex, ok := v.(*ssa.Extract); ok {
+		if cl, ok := ex.Tuple.(*ssa.Call); ok {
+			if k := classify(cl); k != "" {
+				out[k] = true
+				return out
+			}
+		}
+	}
+	if nx := st.Step(v); nx != nil && nx != v {
+		return errSources(st, nx, classify, depth+1)
+	}
+	return out
 }
